@@ -466,10 +466,25 @@ func (fr *Frame) sprintf(instr ssa.Instruction, key string, args []Val, st *Stat
 		ts = append(ts, c.fmtArg(v.L[0]))
 		sorts = append(sorts, SStr)
 	}
-	fn := fmt.Sprintf("sprintf%d", n)
-	c.declFun(fn, strings.Join(sorts, " "), SStr)
 	c.note("fmt.Sprintf modelled as an uninterpreted, deterministic function of the format and the printed form of each argument")
-	return Val{T: types.Typ[types.String], L: []string{c.define("s", SStr, app(fn, ts...))}}
+	return Val{T: types.Typ[types.String], L: []string{c.define("s", SStr, c.sprintfTerm(ts, sorts))}}
+}
+
+// sprintfTerm builds sprintfN(format, printed args...).  For the transaction-key format "%s-%d" the function is
+// injective in its arguments (the decimal rendering contains no '-', so the last '-' splits the key uniquely) and
+// %d of an integer is injective; both facts are asserted as axioms (listed in the evidence).
+func (c *Ctx) sprintfTerm(ts, sorts []string) string {
+	fn := fmt.Sprintf("sprintf%d", len(ts)-1)
+	c.declFun(fn, strings.Join(sorts, " "), SStr)
+	if len(ts) == 3 && ts[0] == c.strLit("%s-%d") {
+		c.note("axiom: the key format %%s-%%d is injective in (printed address, sequence number)")
+		c.raw("sprintf-inj", fmt.Sprintf("(assert (forall ((a Str) (b Str) (c Str) (d Str)) (! (=> (= (%s %s a b) (%s %s c d)) (and (= a c) (= b d))) :pattern ((%s %s a b) (%s %s c d)))))",
+			fn, ts[0], fn, ts[0], fn, ts[0], fn, ts[0]))
+		c.declFun("mk_uint32", bvSort(32), SIface)
+		c.declFun("fmtarg", SIface, SStr)
+		c.raw("fmtarg-u32-inj", "(assert (forall ((n (_ BitVec 32)) (m (_ BitVec 32))) (! (=> (= (fmtarg (mk_uint32 n)) (fmtarg (mk_uint32 m))) (= n m)) :pattern ((fmtarg (mk_uint32 n)) (fmtarg (mk_uint32 m))))))")
+	}
+	return app(fn, ts...)
 }
 
 // fmtArg: the printed form of an interface value (uninterpreted, deterministic).
